@@ -872,9 +872,9 @@ theorem Sp.start {α} {m : M α} {inp inp' tl : Text} {a : α} {k k' : List KV}
     (h : Sp m inp a tl k) (hi : inp' = inp) (hk : k' = k) : Sp m inp' a tl k' := by
   subst hi hk; exact h
 
-macro "sp_begin" : tactic => `(tactic| refine Sp.start ?_ ?hi ?hk)
+macro "sp_begin" : tactic => `(tactic| apply Sp.start)
 macro "sp_step " h:term : tactic =>
-  `(tactic| (refine Sp.bind' $h ?_; try simp only [↓reduceIte, Bool.false_eq_true]))
+  `(tactic| (apply Sp.bind' $h; try simp only [↓reduceIte, Bool.false_eq_true]))
 
 /-! ### the canonical text of a token list -/
 
@@ -913,3 +913,492 @@ theorem sp_acceptTag_none {t : Text} (h : Hd (fun c => c != 35) t) : Sp acceptTa
   exact Sp.pure () _
   case hi => rfl
   case hk => simp
+
+/-! ### prefix operators -/
+
+theorem hd_pre (pre : List Bool) {tl : Text} (h : Hd nodeStart tl) :
+    Hd termStart (spellAll (pre.map preKV) ++ tl) := by
+  cases pre with
+  | nil => exact h.mono (fun c hc => by simp [termStart, hc])
+  | cons b r => cases b <;> simp [spellAll_cons, preKV, spell, termStart]
+
+theorem sp_prefixLoop : ∀ (pre : List Bool) (n : Nat) (tl : Text), pre.length < n →
+    Hd nodeStart tl → Sp (prefixLoop n) (spellAll (pre.map preKV) ++ tl) () tl (pre.map preKV) := by
+  intro pre
+  induction pre with
+  | nil =>
+    intro n tl hn htl s hs
+    cases n with
+    | zero => omega
+    | succ n =>
+      obtain ⟨c, r, rfl, hc⟩ := htl.dest
+      simp only [List.map_nil, spellAll_nil, List.nil_append] at hs
+      have h38 : c ≠ 38 := by
+        rcases nodeStart_cases hc with h | h | h | h | h <;> try omega
+        have := isIdentStart_cases h; omega
+      have h33 : c ≠ 33 := by
+        rcases nodeStart_cases hc with h | h | h | h | h <;> try omega
+        have := isIdentStart_cases h; omega
+      refine ⟨s, ?_, hs, by simp⟩
+      simp [prefixLoop, peek_cons hs, h38, h33]
+  | cons b pre ih =>
+    intro n tl hn htl s hs
+    cases n with
+    | zero => omega
+    | succ n =>
+      have hst : Stop (spellAll (pre.map preKV) ++ tl) := (hd_pre pre htl).stop @tokc_termStart
+      have hn' : pre.length < n := by simp at hn; omega
+      cases b with
+      | true =>
+        have hs' : s.rest = 38 :: 32 :: (spellAll (pre.map preKV) ++ tl) := by
+          simpa [spellAll_cons, preKV, spell] using hs
+        obtain ⟨h1, h2⟩ := skipTrivia_ws (s := (s.adv 1).emit .posPred [38]) (ws := [32])
+          (by simp [hs']) blank_one hst
+        have := (ih n tl hn' htl).from s _ h1 (k0 := [(.posPred, [38])]) (by simp [h2])
+          (kk := (true :: pre).map preKV) (by simp [preKV])
+        simpa [prefixLoop, peek_cons hs'] using this
+      | false =>
+        have hs' : s.rest = 33 :: 32 :: (spellAll (pre.map preKV) ++ tl) := by
+          simpa [spellAll_cons, preKV, spell] using hs
+        obtain ⟨h1, h2⟩ := skipTrivia_ws (s := (s.adv 1).emit .negPred [33]) (ws := [32])
+          (by simp [hs']) blank_one hst
+        have := (ih n tl hn' htl).from s _ h1 (k0 := [(.negPred, [33])]) (by simp [h2])
+          (kk := (false :: pre).map preKV) (by simp [preKV])
+        simpa [prefixLoop, peek_cons hs'] using this
+
+/-! ### `{m,n}` -/
+
+/-- what stands between the braces: a comma or a number -/
+def itemKV : Option Nat → KV
+  | none => (.comma, [44])
+  | some n => (.number, natDigits n)
+
+theorem hd_items (items : List (Option Nat)) {tl : Text} (h : Hd (· == 125) tl) :
+    Hd (fun c => c == 125 || c == 44 || isDigit c) (spellAll (items.map itemKV) ++ tl) := by
+  cases items with
+  | nil => exact h.mono (fun c hc => by simp at hc; simp [hc])
+  | cons i r =>
+    cases i with
+    | none => simp [spellAll_cons, itemKV, spell]
+    | some n =>
+      obtain ⟨d, ds, e, hd, _⟩ := natDigits_cons n
+      simp [spellAll_cons, itemKV, spell, e, hd]
+
+theorem tokc_item {c : Nat} (h : (c == 125 || c == 44 || isDigit c) = true) : tokc c = true := by
+  simp only [Bool.or_eq_true, beq_iff_eq] at h
+  rcases h with (h | h) | h
+  · subst h; decide
+  · subst h; decide
+  · exact tokc_digit h
+
+theorem sp_boundsLoop : ∀ (items : List (Option Nat)) (n : Nat) (t tl : Text), items.length < n →
+    Hd (· == 125) tl → Bl t (spellAll (items.map itemKV) ++ tl) →
+    Sp (boundsLoop n) t () tl (items.map itemKV) := by
+  intro items
+  induction items with
+  | nil =>
+    intro n t tl hn htl hbl s0 hs0
+    cases n with
+    | zero => omega
+    | succ n =>
+      obtain ⟨c, r, rfl, hc⟩ := htl.dest
+      have hc' : c = 125 := by simpa using hc
+      subst hc'
+      obtain ⟨hr, ho⟩ := skipTrivia_bl (s := s0) (by rw [hs0]; simpa using hbl)
+        (stop_tokc r (by decide))
+      refine ⟨skipTrivia s0, ?_, hr, by simp [ho]⟩
+      simp only [boundsLoop]
+      generalize skipTrivia s0 = s at hr ho
+      simp [peek_cons hr, hr, mNumber_none r (c := 125) (by decide)]
+  | cons i items ih =>
+    intro n t tl hn htl hbl s0 hs0
+    cases n with
+    | zero => omega
+    | succ n =>
+      have hn' : items.length < n := by simp at hn; omega
+      have hst : Stop (spellAll ((i :: items).map itemKV) ++ tl) :=
+        (hd_items (i :: items) htl).stop @tokc_item
+      obtain ⟨hr, ho⟩ := skipTrivia_bl (s := s0) (by rw [hs0]; exact hbl) hst
+      simp only [boundsLoop]
+      generalize skipTrivia s0 = s at hr ho
+      cases i with
+      | none =>
+        have hr' : s.rest = 44 :: 32 :: (spellAll (items.map itemKV) ++ tl) := by
+          simpa [spellAll_cons, itemKV, spell] using hr
+        have := (ih n (32 :: (spellAll (items.map itemKV) ++ tl)) tl hn' htl (Bl.one _)).from s0
+          ((s.adv 1).emit .comma [44]) (by simp [hr']) (k0 := [(.comma, [44])]) (by simp [ho])
+          (kk := (none :: items).map itemKV) (by simp [itemKV])
+        simpa [peek_cons hr'] using this
+      | some k =>
+        obtain ⟨d, ds, e, hd, hds⟩ := natDigits_cons k
+        have hr' : s.rest = natDigits k ++ 32 :: (spellAll (items.map itemKV) ++ tl) := by
+          simpa [spellAll_cons, itemKV, spell] using hr
+        have hpk : s.peek ≠ some 44 := by
+          have : s.rest = d :: (ds ++ 32 :: (spellAll (items.map itemKV) ++ tl)) := by
+            rw [hr', e]; rfl
+          rw [peek_cons this]
+          have := isDigit_cases hd
+          simp; omega
+        have hm := mNumber_natDigits k (spellAll (items.map itemKV) ++ tl)
+        have := (ih n (32 :: (spellAll (items.map itemKV) ++ tl)) tl hn' htl (Bl.one _)).from s0
+          ((s.adv (natDigits k).length).emit .number (s.rest.take (natDigits k).length))
+          (by simp [hr']) (k0 := [(.number, natDigits k)]) (by simp [ho, hr'])
+          (kk := (some k :: items).map itemKV) (by simp [itemKV])
+        rw [← hr'] at hm
+        simpa [hpk, hm] using this
+
+/-! ### postfix operators -/
+
+/-- the items between the braces of a postfix operator -/
+def postItems : Post → Option (List (Option Nat))
+  | .opt | .rep | .rep1 => none
+  | .exact n => some [some n]
+  | .min n => some [some n, none]
+  | .max n => some [none, some n]
+  | .minmax m n => some [some m, none, some n]
+
+theorem postKV_items {p : Post} {items : List (Option Nat)} (h : postItems p = some items) :
+    postKV p = (.lbrace, [123]) :: (items.map itemKV ++ [(.rbrace, [125])]) := by
+  cases p <;> simp [postItems] at h <;> subst h <;> rfl
+
+theorem postKV_length (p : Post) : 1 ≤ (postKV p).length := by
+  cases p <;> simp [postKV]
+
+/-- the sub-scanner behind `{` -/
+theorem sp_braces (items : List (Option Nat)) (N : Nat) (hN : items.length < N) (tl : Text) :
+    Sp (do boundsLoop N; triv; expect 125 .rbrace .expectedRBrace; pure true : M Bool)
+      (32 :: (spellAll (items.map itemKV) ++ 125 :: 32 :: tl)) true (32 :: tl)
+      (items.map itemKV ++ [(.rbrace, [125])]) := by
+  sp_begin
+  sp_step (sp_boundsLoop items N _ (125 :: 32 :: tl) hN (by simp) (Bl.one _))
+  sp_step (sp_triv_id (stop_tokc _ (by decide)))
+  sp_step (sp_expect 125 .rbrace .expectedRBrace _)
+  exact Sp.pure true _
+  case hi => rfl
+  case hk => simp
+
+theorem hd_postKV (p : Post) (tl : Text) : Hd afterNode (spellAll (postKV p) ++ tl) := by
+  cases p <;> simp [postKV, spellAll_cons, spell, afterNode]
+
+theorem sp_postfixOp (p : Post) {t tl : Text} (h : Bl t (spellAll (postKV p) ++ tl)) :
+    Sp acceptPostfixOp t true (32 :: tl) (postKV p) := by
+  intro s0 hs0
+  have hst : Stop (spellAll (postKV p) ++ tl) := (hd_postKV p tl).stop @tokc_afterNode
+  obtain ⟨hr, ho⟩ := skipTrivia_bl (s := s0) (by rw [hs0]; exact h) hst
+  simp only [acceptPostfixOp]
+  generalize skipTrivia s0 = s at hr ho
+  cases hp : postItems p with
+  | none =>
+    cases p with
+    | opt =>
+      have hr' : s.rest = 63 :: 32 :: tl := by simpa [postKV, spellAll_cons, spell] using hr
+      exact ⟨(s.adv 1).emit .optionOp [63], by simp [peek_cons hr'], by simp [hr'], by simp [ho, postKV]⟩
+    | rep =>
+      have hr' : s.rest = 42 :: 32 :: tl := by simpa [postKV, spellAll_cons, spell] using hr
+      exact ⟨(s.adv 1).emit .repeatOp [42], by simp [peek_cons hr'], by simp [hr'], by simp [ho, postKV]⟩
+    | rep1 =>
+      have hr' : s.rest = 43 :: 32 :: tl := by simpa [postKV, spellAll_cons, spell] using hr
+      exact ⟨(s.adv 1).emit .repeatOnceOp [43], by simp [peek_cons hr'], by simp [hr'], by simp [ho, postKV]⟩
+    | exact n => simp [postItems] at hp
+    | min n => simp [postItems] at hp
+    | max n => simp [postItems] at hp
+    | minmax m n => simp [postItems] at hp
+  | some items =>
+    have hkv := postKV_items hp
+    have hr' : s.rest = 123 :: 32 :: (spellAll (items.map itemKV) ++ 125 :: 32 :: tl) := by
+      rw [hr, hkv]
+      simp [spellAll_cons, spellAll_append, spell]
+    have hN : items.length < ((s.adv 1).emit .lbrace [123]).rest.length + 1 := by
+      have := length_le_spellAll (items.map itemKV)
+      simp [hr'] at this ⊢; omega
+    have := (sp_braces items _ hN tl).from s0 ((s.adv 1).emit .lbrace [123]) (by simp [hr'])
+      (k0 := [(.lbrace, [123])]) (by simp [ho]) (kk := postKV p) (by rw [hkv]; simp)
+    simpa [peek_cons hr'] using this
+
+theorem sp_postfixOp_no {t tl : Text} (h : Bl t tl) (htl : Hd afterTerm tl) :
+    Sp acceptPostfixOp t false tl [] := by
+  intro s0 hs0
+  obtain ⟨hr, ho⟩ := skipTrivia_bl (s := s0) (by rw [hs0]; exact h) (htl.stop @tokc_afterTerm)
+  obtain ⟨c, r, rfl, hc⟩ := htl.dest
+  refine ⟨skipTrivia s0, ?_, hr, by simp [ho]⟩
+  simp only [acceptPostfixOp]
+  generalize skipTrivia s0 = s at hr ho
+  have := afterTerm_cases hc
+  have h1 : c ≠ 63 := by omega
+  have h2 : c ≠ 42 := by omega
+  have h3 : c ≠ 43 := by omega
+  have h4 : c ≠ 123 := by omega
+  simp [peek_cons hr, h1, h2, h3, h4]
+
+theorem sp_postfixLoop : ∀ (posts : List Post) (n : Nat) (t tl : Text), posts.length < n →
+    Hd afterTerm tl → Bl t (spellAll (posts.map postKV).flatten ++ tl) →
+    Sp (postfixLoop n) t () tl (posts.map postKV).flatten := by
+  intro posts
+  induction posts with
+  | nil =>
+    intro n t tl hn htl hbl
+    cases n with
+    | zero => omega
+    | succ n =>
+      unfold postfixLoop
+      sp_begin
+      sp_step (sp_postfixOp_no (by simpa using hbl) htl)
+      exact Sp.pure () _
+      case hi => rfl
+      case hk => simp
+  | cons p posts ih =>
+    intro n t tl hn htl hbl
+    cases n with
+    | zero => omega
+    | succ n =>
+      have hn' : posts.length < n := by simp at hn; omega
+      unfold postfixLoop
+      sp_begin
+      sp_step (sp_postfixOp p (t := t) (tl := spellAll (posts.map postKV).flatten ++ tl)
+        (by simpa [spellAll_append] using hbl))
+      exact ih n _ tl hn' htl (Bl.one _)
+      case hi => rfl
+      case hk => simp
+
+theorem posts_length_le (posts : List Post) : posts.length ≤ (posts.map postKV).flatten.length := by
+  induction posts with
+  | nil => simp
+  | cons p r ih =>
+    have := postKV_length p
+    simp only [List.map_cons, List.flatten_cons, List.length_append, List.length_cons]; omega
+
+/-- `accept_postfix_ops` behind a node -/
+theorem sp_acceptPostfixOps (posts : List Post) {t tl : Text} (htl : Hd afterTerm tl)
+    (hbl : Bl t (spellAll (posts.map postKV).flatten ++ tl)) :
+    Sp acceptPostfixOps t () tl (posts.map postKV).flatten := by
+  unfold acceptPostfixOps
+  apply Sp.lenFuel posts.length
+  · have h1 := posts_length_le posts
+    have h2 := length_le_spellAll (posts.map postKV).flatten
+    have h3 := hbl.length_le
+    simp at h3; omega
+  · intro n hn
+    exact sp_postfixLoop posts n t tl hn htl hbl
+
+theorem hd_posts (posts : List Post) {tl : Text} (h : Hd afterTerm tl) :
+    Hd afterNode (spellAll (posts.map postKV).flatten ++ tl) := by
+  cases posts with
+  | nil => exact h.mono @afterNode_of_afterTerm
+  | cons p r =>
+    have := hd_postKV p (spellAll (r.map postKV).flatten ++ tl)
+    simpa [spellAll_append] using this
+
+/-! ### `PEEK[a..b]` -/
+
+theorem sp_optInteger (a : Option Int) {tl : Text} (h : Hd (fun c => c == 46 || c == 93) tl) :
+    Sp optInteger (spellAll (optIntKV a) ++ tl) () tl (optIntKV a) := by
+  have hst : Stop tl := h.stop (fun c hc => by
+    simp only [Bool.or_eq_true, beq_iff_eq] at hc
+    rcases hc with hc | hc <;> subst hc <;> decide)
+  unfold optInteger
+  cases a with
+  | none =>
+    obtain ⟨c, r, rfl, hc⟩ := h.dest
+    have hc' : c = 46 ∨ c = 93 := by simpa using hc
+    sp_begin
+    sp_step (sp_scanEmit_none .integer (mInteger_none r (c := c)
+      (by rcases hc' with h | h <;> subst h <;> decide) (by omega)))
+    exact Sp.pure () _
+    case hi => simp [optIntKV]
+    case hk => simp [optIntKV]
+  | some i =>
+    sp_begin
+    sp_step (sp_scanEmit .integer (mInteger_int i tl))
+    exact sp_triv hst
+    case hi => simp [optIntKV, spellAll_cons, spell]
+    case hk => simp [optIntKV]
+
+theorem mLit_dots (tl : Text) : mLit sDOTS (sDOTS ++ tl) = some sDOTS.length := mLit_self sDOTS tl
+
+/-- the kinds and values of `[a..b]` -/
+def sliceKV (a b : Option Int) : List KV :=
+  [(.lbracket, [91])] ++ optIntKV a ++ [(.rangeOp, [46, 46])] ++ optIntKV b ++ [(.rbracket, [93])]
+
+theorem hd_optInt (a : Option Int) {p : Nat → Bool} {tl : Text} (h : Hd p tl) :
+    Hd (fun c => p c || isDigit c || c == 45) (spellAll (optIntKV a) ++ tl) := by
+  cases a with
+  | none => exact h.mono (fun c hc => by simp [hc])
+  | some i =>
+    have := intDigits_hd i (32 :: tl)
+    simp only [optIntKV, spellAll_cons, spell, spellAll_nil, List.append_assoc, List.cons_append,
+      List.nil_append]
+    exact this.mono (fun c hc => by
+      simp only [Bool.or_eq_true] at hc ⊢
+      rcases hc with hc | hc
+      · exact Or.inl (Or.inr hc)
+      · exact Or.inr hc)
+
+/-- `PEEK` followed by a slice -/
+theorem sp_peekTail_slice (a b : Option Int) (tl : Text) :
+    Sp peekTail (32 :: (spellAll (sliceKV a b) ++ tl)) true (32 :: tl) (sliceKV a b) := by
+  have hdB : Hd (fun c => c == 46 || c == 93) (93 :: 32 :: tl) := by simp
+  have hdA : Hd (fun c => c == 46 || c == 93) (sDOTS ++ 32 :: (spellAll (optIntKV b) ++ 93 :: 32 :: tl)) := by
+    simp [sDOTS]
+  have tk : ∀ c, ((c == 46 || c == 93) || isDigit c || c == 45) = true → tokc c = true := by
+    intro c hc
+    simp only [Bool.or_eq_true, beq_iff_eq] at hc
+    rcases hc with ((hc | hc) | hc) | hc
+    · subst hc; decide
+    · subst hc; decide
+    · exact tokc_digit hc
+    · subst hc; decide
+  unfold peekTail
+  sp_begin
+  sp_step (sp_triv (tl := 91 :: 32 :: (spellAll (optIntKV a) ++ (sDOTS ++ 32 ::
+    (spellAll (optIntKV b) ++ 93 :: 32 :: tl)))) (stop_tokc _ (by decide)))
+  sp_step (sp_optChar 91 .lbracket _)
+  sp_step (sp_triv ((hd_optInt a hdA).stop tk))
+  sp_step (sp_optInteger a hdA)
+  sp_step (sp_scanOrError .rangeOp .expectedRangeOp (mLit_dots _))
+  sp_step (sp_triv ((hd_optInt b hdB).stop tk))
+  sp_step (sp_optInteger b hdB)
+  sp_step (sp_expect 93 .rbracket .expectedRParen _)
+  exact Sp.pure true _
+  case hi => simp [sliceKV, spellAll_cons, spellAll_append, spell, sDOTS]
+  case hk => simp [sliceKV, sDOTS]
+
+/-- `PEEK` as a plain identifier: the blank behind it may be eaten -/
+theorem sp_peekTail_no {t tl : Text} (h : Bl t tl) (htl : Hd afterNode tl) :
+    Sp peekTail t true tl [] := by
+  unfold peekTail
+  sp_begin
+  sp_step (sp_triv_bl h (htl.stop @tokc_afterNode))
+  sp_step (sp_optChar_no 91 .lbracket (head_ne_of_hd htl (by decide)))
+  exact Sp.pure true _
+  case hi => rfl
+  case hk => simp
+
+/-! ### character ranges -/
+
+theorem sp_charRange (a b : Nat) (tl : Text) :
+    Sp charRange (spellAll [(.char, charLit a), (.rangeOp, [46, 46]), (.char, charLit b)] ++ tl)
+      true (32 :: tl) [(.char, charLit a), (.rangeOp, [46, 46]), (.char, charLit b)] := by
+  obtain ⟨rb, hb⟩ := charLit_cons b
+  unfold charRange
+  sp_begin
+  sp_step (sp_scanEmit .char (mChar_charLit a (32 :: (sDOTS ++ 32 :: (charLit b ++ 32 :: tl)))))
+  sp_step (sp_triv (stop_tokc _ (by decide)))
+  sp_step (sp_scanOrError .rangeOp .expectedRangeOp (mLit_dots _))
+  sp_step (sp_triv (by rw [hb]; exact stop_tokc _ (by decide)))
+  sp_step (sp_scanOrError .char .expectedChar (mChar_charLit b (32 :: tl)))
+  exact Sp.pure true _
+  case hi => simp [spellAll_cons, spell, sDOTS]
+  case hk => simp [sDOTS]
+
+theorem sp_charRange_no {c : Nat} (r : Text) (h : c ≠ 39) : Sp charRange (c :: r) false (c :: r) [] := by
+  unfold charRange
+  sp_begin
+  sp_step (sp_scanEmit_none .char (mChar_none r h))
+  exact Sp.pure false _
+  case hi => rfl
+  case hk => simp
+
+/-! ### doc lines -/
+
+theorem findNewline_cons {c : Nat} {t : Text} (h10 : c ≠ 10) (h13 : c = 13 → t.head? ≠ some 10) :
+    findNewline (c :: t) = (findNewline t).map (· + 1) := by
+  by_cases hc : c = 13
+  · subst hc
+    cases t with
+    | nil => simp [findNewline]
+    | cons d t' =>
+      have hd : d ≠ 10 := by simpa using h13 rfl
+      simp [findNewline, hd]
+  · simp [findNewline, h10, hc]
+
+theorem findNewline_cons_inv {c : Nat} {t : Text} {n : Nat}
+    (h : findNewline (c :: t) = some (n + 1)) : c ≠ 10 ∧ (c = 13 → t.head? ≠ some 10) := by
+  constructor
+  · intro hc; subst hc; simp [findNewline] at h
+  · intro hc; subst hc
+    cases t with
+    | nil => simp
+    | cons d t' =>
+      intro hd
+      simp at hd; subst hd
+      simp [findNewline] at h
+
+theorem head?_append_one (r : Text) (x : Nat) (a : Text) :
+    (r ++ x :: a).head? = (r ++ [x]).head? := by
+  cases r <;> rfl
+
+/-- the line ends at the line feed that follows it, whatever comes behind -/
+theorem findNewline_doc : ∀ (l : Text) (more : Text), IsDocLine l →
+    findNewline (l ++ 10 :: more) = some l.length := by
+  intro l
+  induction l with
+  | nil => intro more _; simp [findNewline]
+  | cons c r ih =>
+    intro more h
+    unfold IsDocLine at h
+    simp only [List.cons_append, List.length_cons] at h ⊢
+    obtain ⟨h10, h13⟩ := findNewline_cons_inv h
+    rw [findNewline_cons h10 h13] at h
+    rw [findNewline_cons h10 (by rw [head?_append_one]; exact h13)]
+    have hr : IsDocLine r := by
+      unfold IsDocLine
+      cases hf : findNewline (r ++ [10]) with
+      | none => simp [hf] at h
+      | some k => simp [hf] at h; rw [h]
+    rw [ih more hr]; rfl
+
+theorem isDocLine_tail {c : Nat} {r : Text} (h : IsDocLine (c :: r)) : IsDocLine r := by
+  unfold IsDocLine at h ⊢
+  simp only [List.cons_append, List.length_cons] at h
+  obtain ⟨h10, h13⟩ := findNewline_cons_inv h
+  rw [findNewline_cons h10 h13] at h
+  cases hf : findNewline (r ++ [10]) with
+  | none => simp [hf] at h
+  | some k => simp [hf] at h; rw [h]
+
+/-- `scan_grammar_doc_inner` / `scan_rule_doc_inner` on a canonical doc line -/
+theorem sp_docInner {l : Text} (h : IsDocLine l) (more : Text) :
+    Sp docInner (l ++ 10 :: more) () (10 :: more) [(.commentText, l)] := by
+  intro s hs
+  have key : ∃ n, docInner s = .ok () ((s.adv n).emit .commentText (s.rest.take n)) ∧
+      n = l.length := by
+    cases l with
+    | nil =>
+      refine ⟨0, ?_, rfl⟩
+      simp only [List.nil_append] at hs
+      simp [docInner, hs, findNewline]
+    | cons c r =>
+      simp only [List.cons_append] at hs
+      by_cases hc : (c == 32 || c == 9) = true
+      · refine ⟨1 + r.length, ?_, by simp; omega⟩
+        have := findNewline_doc r more (isDocLine_tail h)
+        simp [docInner, hs, hc, this]
+      · refine ⟨0 + (r.length + 1), ?_, by simp⟩
+        have := findNewline_doc (c :: r) more h
+        simp only [List.cons_append, List.length_cons] at this
+        simp [docInner, hs, hc, this]
+  obtain ⟨n, e, hn⟩ := key
+  subst hn
+  exact ⟨_, e, by simp [hs], by simp [hs]⟩
+
+/-! ### modifiers -/
+
+theorem sp_optModifier (m : Option Nat)
+    (hm : match m with | some c => c = 95 ∨ c = 64 ∨ c = 36 ∨ c = 33 | none => True) (tl : Text) :
+    Sp optModifier (spellAll (modKV m) ++ 123 :: tl) () (123 :: tl) (modKV m) := by
+  unfold optModifier
+  cases m with
+  | none =>
+    sp_begin
+    sp_step (sp_scanEmit_none .modifier (t := 123 :: tl) (by simp [mModifier]))
+    exact Sp.pure () _
+    case hi => simp [modKV]
+    case hk => simp [modKV]
+  | some c =>
+    simp only at hm
+    sp_begin
+    sp_step (sp_scanEmit .modifier (w := [c]) (tl := 32 :: 123 :: tl)
+      (by rcases hm with h | h | h | h <;> subst h <;> simp [mModifier]))
+    exact sp_triv (stop_tokc _ (by decide))
+    case hi => simp [modKV, spellAll_cons, spell]
+    case hk => simp [modKV]
